@@ -180,6 +180,7 @@ pub fn gen_config(rng: &mut Prng, pop: Pop) -> Config {
         tti,
         hasher,
         init_cap,
+        shards: None,
     }
 }
 
